@@ -16,6 +16,13 @@ that records the failure; its number is read off the x-attempt). The state after
 snapshot of the database file from which the second faults are enumerated the same way. The fault-free run
 from a state, continued by the no-op run, is at the same time the verdict of the case that led to the state.
 
+Besides `--tx-mode none` a family of roots runs `--tx-mode file` and `all`. There the revision writer is bound to
+the transaction: the k-th-write counter is seen by the transaction's own connection (the fault fires inside it)
+and is rolled back with it (a write repeated outside the transaction is not the k-th any more: the fault is
+one-shot). Only what is COMMITTED is observable (journal rows = effects actually present, committed event rows,
+revision rows); the same judge runs on that, and that the injected write failure happened is taken from the
+engine's error text in the CLI output (or an unfinished `rev.before` hook).
+
 The revision table is created by the real CLI (`migrate apply` on an empty directory) so that it exists -
 and is EMPTY - when the first attempt starts; the journal/event tables make the database "not clean", hence
 `--allow-dirty` is passed as long as no statement has taken effect (journal empty) and never afterwards: from
